@@ -22,19 +22,29 @@ type viewHelper struct {
 func viewHelpers() []viewHelper {
 	return []viewHelper{
 		{"Object", "Object", func(it vocab.Item) (any, error) { return vocab.ToObject(it) },
-			func(it vocab.Item, cb func(any)) error { return vocab.OnObject(it, func(p *vocab.Object) error { cb(p); return nil }) }},
+			func(it vocab.Item, cb func(any)) error {
+				return vocab.OnObject(it, func(p *vocab.Object) error { cb(p); return nil })
+			}},
 		{"Actor", "Actor", func(it vocab.Item) (any, error) { return vocab.ToActor(it) },
-			func(it vocab.Item, cb func(any)) error { return vocab.OnActor(it, func(p *vocab.Actor) error { cb(p); return nil }) }},
+			func(it vocab.Item, cb func(any)) error {
+				return vocab.OnActor(it, func(p *vocab.Actor) error { cb(p); return nil })
+			}},
 		{"Activity", "Activity", func(it vocab.Item) (any, error) { return vocab.ToActivity(it) },
-			func(it vocab.Item, cb func(any)) error { return vocab.OnActivity(it, func(p *vocab.Activity) error { cb(p); return nil }) }},
+			func(it vocab.Item, cb func(any)) error {
+				return vocab.OnActivity(it, func(p *vocab.Activity) error { cb(p); return nil })
+			}},
 		{"IntransitiveActivity", "IntransitiveActivity", func(it vocab.Item) (any, error) { return vocab.ToIntransitiveActivity(it) },
 			func(it vocab.Item, cb func(any)) error {
 				return vocab.OnIntransitiveActivity(it, func(p *vocab.IntransitiveActivity) error { cb(p); return nil })
 			}},
 		{"Question", "Question", func(it vocab.Item) (any, error) { return vocab.ToQuestion(it) },
-			func(it vocab.Item, cb func(any)) error { return vocab.OnQuestion(it, func(p *vocab.Question) error { cb(p); return nil }) }},
+			func(it vocab.Item, cb func(any)) error {
+				return vocab.OnQuestion(it, func(p *vocab.Question) error { cb(p); return nil })
+			}},
 		{"Collection", "Collection", func(it vocab.Item) (any, error) { return vocab.ToCollection(it) },
-			func(it vocab.Item, cb func(any)) error { return vocab.OnCollection(it, func(p *vocab.Collection) error { cb(p); return nil }) }},
+			func(it vocab.Item, cb func(any)) error {
+				return vocab.OnCollection(it, func(p *vocab.Collection) error { cb(p); return nil })
+			}},
 		{"CollectionPage", "CollectionPage", func(it vocab.Item) (any, error) { return vocab.ToCollectionPage(it) },
 			func(it vocab.Item, cb func(any)) error {
 				return vocab.OnCollectionPage(it, func(p *vocab.CollectionPage) error { cb(p); return nil })
@@ -48,17 +58,25 @@ func viewHelpers() []viewHelper {
 				return vocab.OnOrderedCollectionPage(it, func(p *vocab.OrderedCollectionPage) error { cb(p); return nil })
 			}},
 		{"Place", "Place", func(it vocab.Item) (any, error) { return vocab.ToPlace(it) },
-			func(it vocab.Item, cb func(any)) error { return vocab.OnPlace(it, func(p *vocab.Place) error { cb(p); return nil }) }},
+			func(it vocab.Item, cb func(any)) error {
+				return vocab.OnPlace(it, func(p *vocab.Place) error { cb(p); return nil })
+			}},
 		{"Profile", "Profile", func(it vocab.Item) (any, error) { return vocab.ToProfile(it) },
-			func(it vocab.Item, cb func(any)) error { return vocab.OnProfile(it, func(p *vocab.Profile) error { cb(p); return nil }) }},
+			func(it vocab.Item, cb func(any)) error {
+				return vocab.OnProfile(it, func(p *vocab.Profile) error { cb(p); return nil })
+			}},
 		{"Relationship", "Relationship", func(it vocab.Item) (any, error) { return vocab.ToRelationship(it) },
 			func(it vocab.Item, cb func(any)) error {
 				return vocab.OnRelationship(it, func(p *vocab.Relationship) error { cb(p); return nil })
 			}},
 		{"Tombstone", "Tombstone", func(it vocab.Item) (any, error) { return vocab.ToTombstone(it) },
-			func(it vocab.Item, cb func(any)) error { return vocab.OnTombstone(it, func(p *vocab.Tombstone) error { cb(p); return nil }) }},
+			func(it vocab.Item, cb func(any)) error {
+				return vocab.OnTombstone(it, func(p *vocab.Tombstone) error { cb(p); return nil })
+			}},
 		{"Link", "Link", func(it vocab.Item) (any, error) { return vocab.ToLink(it) },
-			func(it vocab.Item, cb func(any)) error { return vocab.OnLink(it, func(p *vocab.Link) error { cb(p); return nil }) }},
+			func(it vocab.Item, cb func(any)) error {
+				return vocab.OnLink(it, func(p *vocab.Link) error { cb(p); return nil })
+			}},
 	}
 }
 
